@@ -19,7 +19,15 @@ class Model:
         return self.cap if (s, ns) == (0, '/') else max(1, self.cap - 1)
 
     def initial(self):
-        w = ServerWorld(is_async=self.is_async, namespaces=list(NSS))
+        w = ServerWorld(is_async=self.is_async,
+                        namespaces=list(NSS) + ['/ref'])
+        if self.is_async:
+            async def refuse(sid, environ):
+                return False
+        else:
+            def refuse(sid, environ):
+                return False
+        w.sio.on('connect', refuse, namespace='/ref')
         w.violations = []
         for _ in range(self.T):
             w.new_transport()
@@ -51,9 +59,11 @@ class Model:
                     ops.append(('dup-connect', s, ns))
                     ops.append(('connect-unserved', s, ns))
                     ops.append(('event', s, ns))
+                    ops.append(('refused-elsewhere', s, ns))
                     if w.writes.get((s, ns), 0) < self._cap(s, ns):
                         ops.append(('save', s, ns))
                         ops.append(('mutate', s, ns))
+                        ops.append(('mutate-raise', s, ns))
                         ops.append(('nested', s, ns))
                         ops.append(('nested2', s, ns))
                         ops.append(('save-in-block', s, ns))
@@ -83,13 +93,18 @@ class Model:
             w.conn[(s, ns)] = sid
             w.ref[(s, ns)] = {}
             w.gen[(s, ns)] = w.gen.get((s, ns), 0) + 1
-        elif kind in ('dup-connect', 'connect-unserved', 'event'):
+        elif kind in ('dup-connect', 'connect-unserved', 'event',
+                      'refused-elsewhere'):
             _, s, ns = op
             sid = w.conn[(s, ns)]
             if kind == 'dup-connect':
                 w.recv_packet(w.slot[s], 0, ns)
             elif kind == 'connect-unserved':
                 w.recv_packet(w.slot[s], 0, '/un')
+            elif kind == 'refused-elsewhere':
+                # the same transport asks for a namespace whose connect
+                # handler refuses it
+                w.recv_packet(w.slot[s], 0, '/ref')
             else:
                 w.recv_packet(w.slot[s], 2, ns, 3, ['ev', 1])
             if w.sid_of(w.slot[s], ns) != sid:
@@ -155,6 +170,30 @@ class Model:
             if r[0] == 'exc':
                 self._bad(w, 'exception', f'{op} raised {r[1:]}')
             w.ref[(s, ns)]['m%d' % n] = [s, ns, w.slot[s], w.gen[(s, ns)]]
+            w.writes[(s, ns)] = w.writes.get((s, ns), 0) + 1
+        elif kind == 'mutate-raise':
+            # the block changes the session and is left through an
+            # exception: what it changed is persisted all the same
+            _, s, ns = op
+            w.counter += 1
+            n = w.counter
+            sid = w.conn[(s, ns)]
+            tag = [s, ns, w.slot[s], w.gen[(s, ns)]]
+            if self.is_async:
+                async def block():
+                    async with sio.session(sid, namespace=ns) as sess:
+                        sess['m%d' % n] = tag
+                        raise KeyError('scripted fault inside the block')
+            else:
+                def block():
+                    with sio.session(sid, namespace=ns) as sess:
+                        sess['m%d' % n] = tag
+                        raise KeyError('scripted fault inside the block')
+            r = w.run(block)
+            if r[:2] != ('exc', 'KeyError'):
+                self._bad(w, 'exception', f'{op}: the exception raised in '
+                          f'the block did not come out of it: {r!r}')
+            w.ref[(s, ns)]['m%d' % n] = tag
             w.writes[(s, ns)] = w.writes.get((s, ns), 0) + 1
         elif kind in ('mutate', 'nested', 'nested2'):
             _, s, ns = op
